@@ -5,7 +5,7 @@ DefinitionStore, decorators, the whole checker and compiler, comptime tracing.
 Reference model: "a fresh session".  For every (definition, op) a history uses, the
 reference outcome is produced by a sibling process forked at the pristine point (pool
 defined, nothing checked or compiled), so DefIds coincide; it performs only that op.
-History: 60-600 seeded ops (check / compile_function / compile) over a generated pool of 1-3
+History: 10-700 seeded ops (check / compile_function / compile) over a generated pool of 1-3
 modules (structs, generics, nat-generics, overloads, comptime functions, nested recursive
 and capturing functions, names shadowed across modules) with failing definitions as the
 injected fault.  Invariant after every op: outcome == reference outcome.
@@ -62,9 +62,9 @@ def run_job(job: dict) -> dict:
 def plan(tier: str, seed: int) -> dict:
     if tier == "quick":
         return {"n_cases": 400, "cases_per_job": 1, "budget_s": 90, "min_budget": 40, "slice": 16,
-                "params": {"min_ops": 60, "max_ops": 300, "max_stmts": 10, "max_refs": 6}}
+                "params": {"min_ops": 10, "max_ops": 320, "max_stmts": 10, "max_refs": 6}}
     return {"n_cases": 20000, "cases_per_job": 1, "budget_s": 1500, "min_budget": 200,
-            "params": {"min_ops": 100, "max_ops": 600, "max_stmts": 16, "max_refs": 10}}
+            "params": {"min_ops": 10, "max_ops": 700, "max_stmts": 16, "max_refs": 10}}
 
 
 # ------------------------------------------------------------------------ canonical form
@@ -164,6 +164,11 @@ def run_case(ch: Choices, params: dict) -> dict:
               "name_shared_across_modules": 0, "nested_shadows_module_level": 0,
               "failing_ops": 0, "ok_ops": 0, "final_round_ops": 0, "reference_forks": 0,
               "self_references": 0, "ops_vs_fresh_reference": 0, "ops_vs_first_occurrence": 0}
+    # ---- raw history draws (resolved against the pool once it exists)
+    n_ops = ch.rng_int(params.get("min_ops", 6), params.get("max_ops", 24), "n_ops")
+    raw_hot = [ch.draw(64, "hot") for _ in range(3)]
+    raw_history = [(ch.draw(64, "def"), ch.draw(3, "hot_i"), ch.draw(3, "use_hot") > 0,
+                    ch.draw(6, "op")) for _ in range(n_ops)]
     # ---- pool
     n_mod = ch.rng_int(1, 3, "n_modules")
     mods, progs = [], []
@@ -190,22 +195,21 @@ def run_case(ch: Choices, params: dict) -> dict:
     if not pool:
         return {"violations": [], "digest": log.digest(), "steps": 0, "keys": [],
                 "nontrivial_keys": [], "extra": {"empty_pool": 1}}
+    hot = [r % len(pool) for r in raw_hot]   # a few definitions are repeated often
     if len({n for _, n in pool}) < len(pool):
         probes["name_shared_across_modules"] = 1
     if any("def fn" in l and l.startswith("    ") for p in progs for l in p["source"].splitlines()):
         probes["nested_shadows_module_level"] = 1
-    # ---- history (drawn before anything is compiled)
-    n_ops = ch.rng_int(params.get("min_ops", 6), params.get("max_ops", 24), "n_ops")
-    hot = [ch.draw(len(pool), "hot") for _ in range(3)]   # a few definitions are repeated
+    # ---- history: drawn *before* the pool (see below) with pool-independent draws, so
+    # that the minimiser can shorten the program part of the choice list without
+    # disturbing the ops and vice versa
     history = []
-    for _ in range(n_ops):
-        pi = hot[ch.draw(3, "hot_i")] if ch.draw(3, "use_hot") else ch.draw(len(pool), "def")
-        # `compile` (entry-point check on top of compile_function) only for `main` and
-        # one drawn definition: keeps the number of reference forks down
+    for (pi_raw, hot_i, use_hot, op_raw) in raw_history:
+        pi = hot[hot_i] if use_hot else pi_raw % len(pool)
         if pool[pi][1] == "main" or pi == hot[0]:
-            op = OPS[ch.draw(3, "op")]
+            op = OPS[op_raw % 3]
         else:
-            op = OPS[ch.draw(2, "op")]
+            op = OPS[op_raw % 2]
         history.append((pi, op))
     # once the faults stop: a final round over (up to 5 drawn) definitions
     order = ch.shuffle(list(range(len(pool))), "final_order")[:5]
